@@ -173,6 +173,25 @@ def _mask_dump(t):
     return re.sub(r"after simulation \d+\.?", "after simulation N.", t or "")
 
 
+def _has_zero_column_block(text):
+    """a SELECTED_OUTPUT block with -reset false that names no column"""
+    blocks = re.split(r"(?mi)^\s*SELECTED_OUTPUT\b", text)[1:]
+    for b in blocks:
+        body = []
+        for ln in b.split("\n")[1:]:
+            t = ln.strip()
+            if not t:
+                continue
+            if not t.startswith("-"):
+                break
+            body.append(t.lower())
+        if any(x.startswith("-reset") and "false" in x for x in body):
+            cols = [x for x in body if not x.startswith(("-reset", "-high", "-file", "-user_punch", "-active")) and not x.endswith("false")]
+            if not cols:
+                return True
+    return False
+
+
 def _cmp_rows(a, b):
     """returns (ok, detail, bitwise_equal_rows)"""
     if sorted(a) != sorted(b):
@@ -247,7 +266,10 @@ def run_case(ctx, case):
                       sample=sample)
     ok, detail, bit = _cmp_rows(wrows, srows)
     if not ok:
-        return Result(VIOLATED, key="C04/rows-differ/%s" % case["inp"]["kind"],
+        kind_ = case["inp"]["kind"]
+        if "rows whole vs" in detail and _has_zero_column_block(wtext if "wtext" in dir() else _input_text(ctx, case["inp"])[0]):
+            kind_ = "zero-column-block"      # C05's open finding (a block without columns counts no rows) seen through the row counts of a split run
+        return Result(VIOLATED, key="C04/rows-differ/%s" % kind_,
                       what="%s cuts=%s deliveries=%s: %s" % (name, case["cuts"], case["deliv"], detail), sample=sample)
     if _mask_dump(wdump) != _mask_dump(sdump):
         la, lb = _mask_dump(wdump).split("\n"), _mask_dump(sdump).split("\n")
